@@ -295,7 +295,56 @@ def _credited_loops(ctx, f, cls):
     for n in walk_local(f.node):
         if isinstance(n, ast.AsyncFor) and isinstance(n.iter, ast.Call) and 'async_range' in ast.unparse(n.iter.func):
             out.append(n)
+        # the same count with the built-in range (no suspension per element: C12.j looks at that, not this rule)
+        if isinstance(n, ast.For) and isinstance(n.iter, ast.Call) and isinstance(n.iter.func, ast.Name) and \
+                n.iter.func.id == 'range' and len(n.iter.args) == 1:
+            out.append(n)
     return out
+
+
+CREDITED_SUBJECTS = [
+    ('rsocket.streams.stream_from_generator:StreamFromGenerator._generate_next_n',
+     'rsocket.streams.stream_from_generator:StreamFromGenerator', 'yield'),
+    ('rsocket.streams.stream_from_async_generator:StreamFromAsyncGenerator._generate_next_n',
+     'rsocket.streams.stream_from_async_generator:StreamFromAsyncGenerator', 'yield'),
+] + [('rsocket.%s.back_pressure_publisher:%s.<locals>.on_subscribe.<locals>._aio_next' % (pkg, outer), None, 'on_next')
+     for pkg in ('reactivex', 'rx_support')
+     for outer in ('observable_from_async_generator', 'from_async_event_iterator')]
+
+
+def rule_credit_loops_yield_the_loop(ctx, rule='C12.j'):
+    """The peer chooses n (up to 2^31-1) and the library produces n elements in a loop: every turn of such a loop
+    must give the event loop a chance to run - `async for ... in async_range(n)` (which sleeps 0 per element) or an
+    await in the body - otherwise one REQUEST_N against a long synchronous generator keeps receiver, sender and
+    keepalives from running until the generator is exhausted: other streams are not served, CANCEL is not seen."""
+    rep = ctx.report
+    ar = ctx.repo.func('rsocket.async_helpers:async_range')
+    ar_loop = [n for n in walk_local(ar.node) if isinstance(n, ast.For)]
+    ar_yields = bool(ar_loop) and any(isinstance(x, ast.Await) for st in ar_loop[0].body for x in ast.walk(st))
+    rep.add(rule, 'async_range / suspends once per element', ar, ar_yields,
+            'await asyncio.sleep(0) inside the loop' if ar_yields else
+            'async_range no longer awaits inside its loop: a credited loop over it monopolises the event loop')
+    n = 0
+    for fspec, cspec, how in CREDITED_SUBJECTS:
+        f = ctx.repo.func(fspec)
+        cls = ctx.repo.cls(cspec) if cspec else None
+        label = f.short.replace('.<locals>', '') + (' (%s)' % fspec.split('.')[1] if cspec is None else '')
+        for loop in _credited_loops(ctx, f, cls):
+            n += 1
+            over_async_range = isinstance(loop, ast.AsyncFor)
+            awaits_in_body = any(isinstance(x, (ast.Await, ast.AsyncFor, ast.AsyncWith))
+                                 for st in loop.body for x in ast.walk(st))
+            # an await that every iteration passes: directly in the body, not only under a condition
+            direct = any(isinstance(x, ast.Await) for st in loop.body
+                         if isinstance(st, (ast.Expr, ast.Assign, ast.AugAssign, ast.Try)) for x in ast.walk(st))
+            ok = (over_async_range and ar_yields) or direct
+            rep.add(rule, '%s / the credited loop lets other tasks run' % label, (f.file, loop.lineno), ok,
+                    'iterates async_range(n), which suspends per element' if over_async_range and ok else
+                    'awaits in every iteration' if ok else
+                    'a loop of up to n = 2^31-1 turns (the peer chooses n) without a suspension point%s: the event '
+                    'loop is blocked until the generator is exhausted' % (
+                        ' on every turn' if awaits_in_body else ''))
+    rep.require(rule, 'credited production loops', n, 6)
 
 
 def rule_b(ctx):
@@ -307,16 +356,7 @@ def rule_b(ctx):
         len([n for n in walk_local(ar.node) if isinstance(n, ast.Yield)]) == 1
     rep.add('C06.b', 'async_range / yields exactly count times', ar, ok,
             'for i in range(count): yield i' if ok else 'async_range no longer iterates exactly range(count)')
-    subjects = [
-        ('rsocket.streams.stream_from_generator:StreamFromGenerator._generate_next_n',
-         'rsocket.streams.stream_from_generator:StreamFromGenerator', 'yield'),
-        ('rsocket.streams.stream_from_async_generator:StreamFromAsyncGenerator._generate_next_n',
-         'rsocket.streams.stream_from_async_generator:StreamFromAsyncGenerator', 'yield'),
-    ]
-    for pkg in ('reactivex', 'rx_support'):
-        for outer in ('observable_from_async_generator', 'from_async_event_iterator'):
-            subjects.append(('rsocket.%s.back_pressure_publisher:%s.<locals>.on_subscribe.<locals>._aio_next' % (
-                pkg, outer), None, 'on_next'))
+    subjects = list(CREDITED_SUBJECTS)
     for fspec, cspec, how in subjects:
         f = ctx.repo.func(fspec)
         cls = ctx.repo.cls(cspec) if cspec else None
@@ -324,7 +364,7 @@ def rule_b(ctx):
         label = f.short.replace('.<locals>', '') + (' (%s)' % fspec.split('.')[1] if cspec is None else '')
         if len(loops) != 1:
             rep.bad('C06.b', '%s / production inside a credited loop' % label, f,
-                    'expected one loop over async_range(n), found %d' % len(loops))
+                    'expected one loop over async_range(n) / range(n), found %d' % len(loops))
             continue
         loop = loops[0]
         arg = loop.iter.args[0] if loop.iter.args else None
